@@ -47,7 +47,7 @@ DECIDING = ["walk_evaluations_compared", "determinism_pairs", "snapshots_compare
             "write_set_kernels_traced", "failed_evaluations_injected"]
 SHARD_TIMEOUT = {"quick": 900, "thorough": 5400}
 
-WALK_KINDS = ["decay_no_irf", "decay_dispersed_irf", "coherent_artifact", "oscillation_no_irf", "decay_multi_gaussian_irf", "spectral_axis_scale", "clp_guide_scaled", "all_scaled"]
+WALK_KINDS = ["decay_no_irf", "decay_dispersed_irf", "coherent_artifact", "oscillation_no_irf", "decay_multi_gaussian_irf", "spectral_axis_scale", "clp_guide_scaled", "all_scaled", "split_decay"]
 KINDS = ["decay_no_irf", "decay_dispersed_irf", "coherent_artifact", "oscillation_no_irf", "decay_multi_gaussian_irf"]
 EXPECT_KERNELS = ["calculate_decay_matrix_no_irf", "calculate_decay_matrix_gaussian_irf", "_calculate_coherent_artifact_matrix",
                   "calculate_damped_oscillation_matrix_no_irf"]
@@ -108,7 +108,20 @@ def make_optimizer(scheme_builder):
 
     scheme = scheme_builder()
     opt = Optimizer(scheme, verbose=False, raise_exception=True)
-    opt.optimize()
+    first = []
+    orig = opt.objective_function
+
+    def recording(x):
+        v = orig(x)
+        first.append((np.array(x, copy=True), np.array(v, copy=True)))
+        return v
+
+    opt.objective_function = recording  # the evaluations optimize() itself makes are part of the history, too
+    try:
+        opt.optimize()
+    finally:
+        del opt.objective_function
+    opt._vf_first_evaluations = first
     return opt, scheme
 
 
@@ -121,7 +134,9 @@ def walk(scheme_builder, rec, rng, fp, ctx, T=30):
     labels, x0, lo, hi = scheme.parameters.get_label_value_and_bounds_arrays(exclude_non_vary=True)
     if len(x0) == 0:
         return False
-    xs, vals = [], []
+    # the very first evaluations this optimiser made (inside optimize()) are compared like all later ones: what a process
+    # computes first must not differ from what it computes once it is warm
+    xs, vals = [a for a, _ in opt._vf_first_evaluations], [b for _, b in opt._vf_first_evaluations]
     revisits = 0
     for t in range(T):
         r = int(rng.integers(6))
